@@ -64,8 +64,12 @@ impl SenderObs {
         SenderObs { first_seq: None, expected_first, segs: BTreeMap::new(), highest: -1, fin_rel: None, fin_times: vec![], prev: st.clone(), st }
     }
 
+    /// unwrapped index of `seq` relative to the first data seq: resolved around the highest
+    /// number sent so far, so transfers longer than half the sequence space stay monotone
     pub fn rel(&self, seq: u16) -> i32 {
-        dist(seq, self.expected_first)
+        let top = self.highest.max(self.fin_rel.unwrap_or(-1)).max(0);
+        let top_seq = self.expected_first.wrapping_add(top as u16);
+        top + dist(seq, top_seq)
     }
 
     /// bytes sent and not acknowledged under ack state `s`, up to and including rel `upto`
@@ -106,13 +110,13 @@ impl SenderObs {
             return;
         }
         self.prev = self.st.clone();
+        let a_raw = self.rel(p.ack);
         let s = &mut self.st;
         s.n_rx += 1;
         s.t_last_rx = t;
         if p.ptype == refparse::ST_DATA {
             s.mss_now = s.mss_now.max(p.payload.len());
         }
-        let a_raw = dist(p.ack, self.expected_first);
         // an ack beyond what was sent acknowledges everything sent so far *and* (this is what the
         // implementation does) segments that are queued but were never transmitted: their numbers
         // are skipped on the wire. Absurdly distant values are treated as stale.
